@@ -16,6 +16,7 @@ namespace
         static void cw(void *p, const char *d, unsigned n) { self_of(p)->sink->on_write(d, n); }
         static void ce(void *p, const char *d, unsigned n) { self_of(p)->sink->on_execute(d, n); }
         static void cs(void *p, int sig) { self_of(p)->sink->on_signal(sig); }
+        void set_echo(bool on) override { vt.set_echo(on ? 1 : 0); }
         void start(unsigned cap, unsigned h, TermSink *sk, const char *prompt, bool echo, unsigned flags = 0) override
         {
             sink = sk;
